@@ -231,11 +231,30 @@ func (r *Run) opaqueFormat(f *StrV, args *SliceV) *StrV {
 				for j := 0; j < v.len; j++ {
 					if b, ok := elemsOf(v)[v.off+j].(*Term); ok {
 						t = Concat(t, b)
+					} else if r.inst.stubSet["leakcheck"] {
+						// a slice of structs, strings, ...: whatever data the elements consist of
+						for _, x := range r.sinkTerms(nil, r.force(&elemsOf(v)[v.off+j])) {
+							if x.w == 0 {
+								x = BoolToBV(x, 1)
+							}
+							t = Concat(t, x)
+						}
 					}
 				}
 			}
 		default:
+			// errors (by their message), structs, ...: whatever data the value consists of
 			t = BVu(uint64(i), 8)
+			var parts []*Term
+			if r.inst.stubSet["leakcheck"] {
+				parts = r.sinkTerms(nil, iv)
+			}
+			for _, x := range parts {
+				if x.w == 0 {
+					x = BoolToBV(x, 1)
+				}
+				t = Concat(t, x)
+			}
 		}
 		name += fmt.Sprintf("_w%d", t.w)
 		ts = append(ts, t)
